@@ -197,11 +197,14 @@ pub struct Interner<'a> {
     pub insts: Vec<(usize, Vec<Src>)>,
     /// per id: the closed source type the entry was first registered for (`None`: bit-order marker)
     pub labels: Vec<Option<Src>>,
+    /// intern by `canon` (Box erased everywhere, VecDeque = Vec) as this harness did before the derive tier
+    /// existed; kept only so that the derive tier can show that it tells the two apart
+    pub legacy_identity: bool,
 }
 
 impl<'a> Interner<'a> {
     pub fn new(defs: &'a [Def]) -> Self {
-        Interner { defs, ids: HashMap::new(), types: vec![], insts: vec![], labels: vec![] }
+        Interner { defs, ids: HashMap::new(), types: vec![], insts: vec![], labels: vec![], legacy_identity: false }
     }
 
     fn alloc(&mut self, key: String) -> Result<u32, u32> {
@@ -245,7 +248,8 @@ impl<'a> Interner<'a> {
     pub fn intern(&mut self, s: &Src) -> u32 {
         // scale-info identifies types by the TypeId of `T::Identity` (one step, see `tid_key`);
         // the content is `T::type_info()`, which looks through every outer Box
-        let id = match self.alloc(tid_key(s)) {
+        let key = if self.legacy_identity { format!("{:?}", canon(s)) } else { tid_key(s) };
+        let id = match self.alloc(key) {
             Ok(id) => id,
             Err(id) => return id,
         };
@@ -419,6 +423,16 @@ pub fn build_labelled(p: &Program) -> (Value, Vec<(usize, Vec<Src>)>, Vec<Option
     let insts = it.insts.clone();
     let labels = it.labels.clone();
     (it.finish(), insts, labels)
+}
+
+/// the registry under the FALSE assumption that scale-info erases Box / VecDeque everywhere
+pub fn build_legacy_identity(p: &Program) -> Value {
+    let mut it = Interner::new(&p.defs);
+    it.legacy_identity = true;
+    for r in &p.roots {
+        it.intern(r);
+    }
+    it.finish()
 }
 
 /// two entries standing for the same type up to `canon` (Box below the top, `Box<Vec<..>>`, ..):
